@@ -372,7 +372,10 @@ func (m *Monitors) c17(st *Step) []Finding {
 	// nickname (nicknames compare case-insensitively, as everywhere in IRC)
 	if e := &st.Entry; e.Type == int64(robust.IRCFromClient) && strings.HasPrefix(e.Data, ":") {
 		if A := actorOf(st); A != nil && A.Server {
-			if cmd, _ := SplitInput(e.Data); cmd == "QUIT" {
+			// (a link whose line arrives from a banned address is closed before the line is
+			// looked at: then nothing was asked of the pseudo-client)
+			_, linkStill := after[A.Id]
+			if cmd, _ := SplitInput(e.Data); cmd == "QUIT" && linkStill {
 				name := strings.TrimPrefix(strings.SplitN(e.Data, " ", 2)[0], ":")
 				for i := range st.Before.Sessions {
 					s := &st.Before.Sessions[i]
